@@ -389,6 +389,74 @@ def cold_starts(rep, tier):
     return bad
 
 
+WARM = r"""
+import sys, json, threading
+sys.path.insert(0, sys.argv[1])
+sys.setswitchinterval(1e-6)
+import hszinc
+R = hszinc.Ref
+g = hszinc.Grid(version='3.0', columns=[('id', []), ('dis', []), ('geoCity', []), ('siteRef', []), ('equipRef', [])])
+g.extend([{'id': R('s1'), 'dis': 'S1', 'geoCity': 'Chicago'}, {'id': R('s2'), 'dis': 'S2', 'geoCity': 'Boston'},
+          {'id': R('e1'), 'dis': 'E1', 'siteRef': R('s1')}, {'id': R('e2'), 'dis': 'E2', 'siteRef': R('s1')},
+          {'id': R('e3'), 'dis': 'E3', 'siteRef': R('s2')}, {'id': R('e4'), 'dis': 'E4', 'siteRef': R('s2')},
+          {'id': R('p1'), 'dis': 'P1', 'equipRef': R('e1'), 'siteRef': R('s1')},
+          {'id': R('p2'), 'dis': 'P2', 'equipRef': R('e3'), 'siteRef': R('s2')}])
+FILTERS = ['siteRef->geoCity == "Chicago"', 'siteRef->geoCity == "Boston"', 'siteRef->dis == "S2"',
+           'equipRef->siteRef->geoCity == "Chicago"', 'not siteRef->geoCity', 'equipRef->dis == "E3" or siteRef->dis == "S1"']
+EXPECT = [['e1', 'e2', 'p1'], ['e3', 'e4', 'p2'], ['e3', 'e4', 'p2'], ['p1'], ['s1', 's2'], ['e1', 'e2', 'p1', 'p2']]
+for i, f in enumerate(FILTERS):          # compiled (and right) before any thread starts: what follows is evaluation only
+    assert [r['id'].name for r in g.filter(f)] == EXPECT[i], (f, [r['id'].name for r in g.filter(f)])
+n, rounds = int(sys.argv[2]), int(sys.argv[3])
+bar = threading.Barrier(n)
+bad = []
+def work(t):
+    bar.wait()
+    for k in range(rounds):
+        i = (t + k * (1 + t % 2)) % len(FILTERS)
+        try:
+            got = [r['id'].name for r in g.filter(FILTERS[i])]
+        except BaseException as e:
+            got = 'EXC ' + type(e).__name__
+        if got != EXPECT[i]:
+            bad.append([t, k, FILTERS[i], got, EXPECT[i]])
+            return
+ts = [threading.Thread(target=work, args=(t,)) for t in range(n)]
+[t.start() for t in ts]; [t.join() for t in ts]
+sys.__stdout__.write(json.dumps({'bad': bad[:3]}) + chr(10))
+"""
+
+
+def warm_races(rep, tier):
+    """Filters that are already compiled, EVALUATED by several plain threads at once on one grid whose rows point at
+    each other (a->b paths; consecutive rows with one target, other threads after another target): every evaluation
+    gives its own filter's rows.  Sampled like the cold starts (a tiny switch interval, thousands of evaluations)."""
+    import subprocess
+    from concurrent.futures import ThreadPoolExecutor
+    from core import REPO
+    runs = [(k, 2 + k % 3, 1500 if tier == 'quick' else 6000) for k in range(8 if tier == 'quick' else 40)]
+
+    def one(job):
+        k, n, rounds = job
+        try:
+            p = subprocess.run(['/venv/bin/python', '-c', WARM, REPO, str(n), str(rounds)], stdout=subprocess.PIPE,
+                               stderr=subprocess.PIPE, timeout=600)
+            return job, json.loads(p.stdout.decode().strip().split('\n')[-1])
+        except subprocess.TimeoutExpired:
+            return job, {'bad': [[0, 0, 'no result within 600 s', 'none', 'rows']]}
+        except Exception:
+            return job, {'bad': [[0, 0, 'no output', p.stderr.decode()[-300:], 'rows']]}
+    bad = []
+    with ThreadPoolExecutor(max_workers=4) as ex:
+        for (k, n, rounds), o in ex.map(one, runs):
+            rep.case(('warm', k))
+            if o['bad']:
+                bad.append(({'engine': 'warm-race', 'threads': n}, {'threads': n, 'rounds': rounds, 'wrong': o['bad']}))
+    rep.traces += len(runs)
+    rep.extra['warm_race_processes'] = {'runs': len(runs), 'failed': len(bad),
+                                        'evaluations': sum(n * r for _, n, r in runs)}
+    return bad
+
+
 def run(tier):
     hs = use_repo()
     rep = Report('C13', tier)
@@ -491,6 +559,7 @@ def run(tier):
             raise MachineryError('binding self-test failed: accepted=%r' % (acc,))
         found.extend(sequential_histories(rep, work, hs, tier, rng))
         found.extend(cold_starts(rep, tier))
+        found.extend(warm_races(rep, tier))
     for f, d in found:
         rep.violation(f, d)
     rep.rule = ('one case = one schedule (scenario, actual switch sequence) of real threads, distinct by switch sequence; '
